@@ -95,7 +95,27 @@ def shape_modules(rng, tier):
     for n in list(range(0, 41)) + [64, 65, 100]:
         types.append({"p": ["i32", "i64", "f32", "f64"][:0] + [["i32", "i64", "f32", "f64"][k % 4] for k in range(n)], "r": []})
         funcs.append({"type": len(types) - 1, "locals": [], "body": [["end"]]})
+    # nesting depths around the growth points of the label and type stacks
+    for dpt in list(range(1, 70)) + [95, 96, 97, 98, 99, 127, 128, 129, 146, 147, 148, 255, 256, 257]:
+        kinds = [("block", "i32") if d % 3 == 0 else ("loop", "") if d % 3 == 1 else ("block", "") for d in range(dpt)]
+        # the branch carries a value if its target wants one and leaves it on the stack otherwise
+        b_ = [[k[0], k[1]] for k in kinds] + [["i32.const", b32(5)], ["local.get", 0], ["br_if", dpt - 1], ["drop"]]
+        for k in reversed(kinds):
+            b_ += ([["i32.const", b32(1)], ["end"], ["drop"]] if k[1] == "i32" else [["end"]])
+        funcs.append({"type": 0, "locals": [], "body": b_ + [["i32.const", b32(dpt)], ["end"]]})
     mods.append(("vectorsizes", {"types": types, "funcs": funcs, "exports": [{"name": "f%d" % k, "kind": "func", "idx": k} for k in range(0, len(funcs), 7)]}))
+    # numbers of entities around powers of two: types, imports, functions, globals, exports, data and element segments
+    for cnt in (0, 1, 2, 15, 16, 17, 31, 32, 33, 63, 64, 65, 127, 128, 129, 255, 256, 257):
+        tys = [{"p": ["i32"] * (k % 5), "r": ["i32"] if k % 2 else []} for k in range(max(cnt, 1))]
+        fns = [{"type": k % len(tys), "locals": [], "body": ([["i32.const", b32(k)]] if tys[k % len(tys)]["r"] else []) + [["end"]]} for k in range(cnt)]
+        m = {"types": tys, "imports": [{"mod": "env", "name": "i%d" % k, "kind": "global", "t": "i32", "mut": False} for k in range(cnt)],
+             "funcs": fns, "globals": [{"t": "i64", "mut": bool(k % 2), "init": ["i64.const", b64(k)]} for k in range(cnt)],
+             "memory": {"min": 1, "max": 1}, "table": {"min": max(cnt, 1), "max": max(cnt, 1)},
+             "data": [{"mode": "active" if k % 4 else "passive", "offset": ["i32.const", b32(k * 3)], "bytes": [k % 251, 1]} for k in range(cnt)],
+             "elems": [{"offset": ["i32.const", b32(k)], "funcs": [k]} for k in range(cnt)],
+             "exports": [{"name": "e%d" % k, "kind": "func", "idx": k} for k in range(cnt)] + [{"name": "g%d" % k, "kind": "global", "idx": k} for k in range(cnt)],
+             "datacount": True}
+        mods.append(("counts-%d" % cnt, m))
     # one module with every section kind (the directed module of checks/c08.py), with a name section: swept byte by byte
     src = open(os.path.join(os.path.dirname(os.path.abspath(__file__)), "c08.py")).read().replace("main_wrap(main)", "")
     ns = {"__file__": os.path.join(os.path.dirname(os.path.abspath(__file__)), "c08.py"), "__name__": "borrowed_c08"}
@@ -155,6 +175,9 @@ def main():
         san = common.build_w2c2(os.path.join(wd, "san"), flags=SAN_FLAGS, cc="clang", name="w2c2san")
         plain = common.build_w2c2(os.path.join(wd, "plain"), flags=("-O2",), name="w2c2plain")
         mods = shape_modules(rng, tier)
+        bad = machine.validate_modules([(n_, machine.norm_module(m_)) for n_, m_ in mods], wd)
+        if bad:
+            raise common.MachineryError("shape modules rejected by WasmValid: %s" % dict(list(bad.items())[:3]))
         jobs = []
         # the all-sections module is swept a second time with every LEB128 field padded to its maximum length
         mods = mods + [("allsections-padded", dict([m_ for n_, m_ in mods if n_ == "allsections"][0], **{"__choices": {"padall": 1}}))]
